@@ -16,7 +16,13 @@ use std::future::Future;
 pub struct Error;
 impl Error { pub fn msg() -> Self { Error } }
 pub type Result<T, E = Error> = std::result::Result<T, E>;
-pub trait AsyncRead { fn read_exact<'a>(&'a mut self, buf: &'a mut [u8]) -> impl Future<Output = Result<usize>> + 'a; }
+pub trait AsyncRead {
+    fn read_exact<'a>(&'a mut self, buf: &'a mut [u8]) -> impl Future<Output = Result<usize>> + 'a;
+    // tokio's AsyncReadExt::read: SOME of the available bytes (at least one unless none is left or the buffer is empty), how many is up to the transport
+    fn read<'a>(&'a mut self, buf: &'a mut [u8]) -> impl Future<Output = Result<usize>> + 'a;
+}
+#[cfg(kani)] fn transport_delivers(cap: usize) -> usize { let n: usize = kani::any(); kani::assume(1 <= n && n <= cap); n }
+#[cfg(not(kani))] fn transport_delivers(cap: usize) -> usize { cap }
 pub trait AsyncWrite { fn write_all<'a>(&'a mut self, buf: &'a [u8]) -> impl Future<Output = Result<()>> + 'a; }
 // in-memory stream: `len` bytes of `data` are available; reading past the end is an error (EOF), as tokio's read_exact
 pub struct MemStream<const N: usize> { pub data: [u8; N], pub len: usize, pub pos: usize }
@@ -33,6 +39,16 @@ impl<const N: usize> AsyncRead for MemStream<N> {
         buf.copy_from_slice(&self.data[self.pos..self.pos + buf.len()]);
         self.pos += buf.len();
         Ok(buf.len())
+    }
+    async fn read(&mut self, buf: &mut [u8]) -> Result<usize> {
+        let avail = self.len - self.pos;
+        let cap = if avail < buf.len() { avail } else { buf.len() };
+        if cap == 0 { return Ok(0); }
+        let n = transport_delivers(cap);
+        let mut i = 0;
+        while i < n { buf[i] = self.data[self.pos + i]; i += 1; }
+        self.pos += n;
+        Ok(n)
     }
 }
 impl<const N: usize> AsyncWrite for MemStream<N> {
